@@ -116,12 +116,12 @@ where
             let vj = match v.and_then(|t| crate::json::parse(&t).ok()) {
                 Some(vj) => vj,
                 None => {
-                    // no model mismatch was recorded: a panic. Inside the files this property is anchored
-                    // in it counts like in the sequential phase; shuttle's own (deadlock, step limit), the
-                    // harness's, or one in another property's code do not.
+                    // no model mismatch was recorded: a panic. In the crate's own sources (calls the
+                    // property does not judge are swallowed where they are made) it counts like in the
+                    // sequential phase; shuttle's own (deadlock, step limit) and the harness's do not.
                     let msg = crate::sim::last_panic_anywhere();
                     let loc = msg.rsplit(" at ").next().unwrap_or("").to_string();
-                    if loc.starts_with('/') && !loc.contains("/.cargo/") && !loc.contains("/registry/") && W::anchored_files().iter().any(|f| loc.contains(f)) {
+                    if loc.starts_with('/') && !loc.contains("/.cargo/") && !loc.contains("/registry/") && !loc.contains("/rustc/") && !loc.contains("/library/") && !loc.contains("shuttle") {
                         J::obj().with("class", J::str("panic/concurrent/-")).with("step", J::u(0)).with("detail", J::Str(format!("crate code panicked under a concurrent schedule: {}", msg)))
                     } else {
                         J::Null
